@@ -592,6 +592,28 @@ func genQuery(r *rand.Rand, w Window, o GenOpts) string {
 func genCase(seed int64, id int, o GenOpts) *Case {
 	r := rand.New(rand.NewSource(seed*1_000_003 + int64(id)))
 	c := &Case{ID: id, Seed: seed}
+	if o.Focus == "hist" {
+		// histogram_quantile over classic histogram buckets of one or two metrics
+		c.Window = genWindow(r)
+		c.Lookback = 300_000
+		c.Procs = pick(r, []int{2, 8, 16})
+		i := 0
+		for _, name := range []string{"foo", "bar"} {
+			for _, a := range []string{"x", "y"} {
+				for k, le := range []string{"0.1", "1", "+Inf"} {
+					var smp []Sample
+					for t := c.Window.Start - 200_000; t <= c.Window.End+10_000; t += 15_000 {
+						smp = append(smp, Sample{T: t + int64(i%2), V: float64((k + 1) * (3 + i%4)) + float64(t/15_000%7)})
+					}
+					c.Data = append(c.Data, SeriesData{Labels: labels.FromStrings("__name__", name, "a", a, "le", le), Samples: smp})
+					i++
+				}
+			}
+		}
+		sel := pick(r, []string{"foo", "bar", `{__name__=~"foo|bar"}`, `foo{a="x"}`, `{__name__=~"foo|bar",a="y"}`, "sum by (le, a) (foo)", "sum by (le) (rate(foo[1m]))"})
+		c.Query = fmt.Sprintf("histogram_quantile(%s, %s)", pick(r, []string{"0.5", "0.9", "0", "1", "scalar(foo{le=\"1\",a=\"x\"}) / 100"}), sel)
+		return c
+	}
 	if o.Focus == "pairs" {
 		// the exhaustive space of C09: case id enumerates (selector a, selector b, template)
 		c.Window = Window{Start: 900_000, End: 1_200_000, Step: 30_000}
